@@ -357,6 +357,7 @@ def run_live_exec(case):
             ls = StreamListener(output_queue=q, max_latency=None)
             ls.register_stream(stream.stream_id, "marketSubscription")
             W.update(fw=fw, client=client, bc=betting_client, strategies=sts, stream=stream, ls=ls, q=q, calls=[])
+            W["hook"] = True
         new_framework()
         hashes = {st.name_hash: i for i, st in enumerate(W["strategies"])}
         ids = {}          # order.id -> name (names survive a restart: the id is what the exchange echoes back)
@@ -545,6 +546,21 @@ def run_live_exec(case):
                 sent.append({"order": name_of(o), "cancel": cs, "place": ps, "bet": bet, "price": int(round(i["newPrice"] * 100)), "size": sc or 0})
             return resources.ReplaceOrders(elapsed_time=0.1, **{"marketId": pkg.market_id, "status": "SUCCESS", "instructionReports": reps})
 
+        holding = {}      # thread ident -> call dict that wants to be held inside its first `with order.trade` block
+
+        def install_hold_hook(fw):
+            ex = fw.betfair_execution
+            orig = ex._order_logger
+            def hooked(order, report, ptype):
+                c = holding.get(threading.get_ident())
+                if c is not None and not c.get("held_once"):
+                    c["held_once"] = True
+                    c["inside"] = True
+                    c["progress"].set()
+                    c["release2"].wait()          # stays INSIDE the `with order.trade:` block until released
+                return orig(order, report, ptype)
+            ex._order_logger = hooked
+
         def start_call(pkg, outcome):
             kind = {OrderPackageType.PLACE: "place", OrderPackageType.CANCEL: "cancel", OrderPackageType.UPDATE: "update", OrderPackageType.REPLACE: "replace"}[pkg.package_type]
             c = {"pkg": pkg, "kind": kind, "outcome": outcome, "sent": [], "attempts": 0, "answered": False, "progress": threading.Event(), "release": threading.Event(), "exc": None, "done": False,
@@ -563,7 +579,9 @@ def run_live_exec(case):
                 return resp
             getattr(W["bc"].betting, kind + "_orders").side_effect = call
             fw = W["fw"]
+            c["release2"] = threading.Event()
             def target():
+                holding[threading.get_ident()] = c if c.get("hold") else None
                 try:
                     fw.betfair_execution.handler(pkg)
                 except Exception as e:
@@ -575,10 +593,24 @@ def run_live_exec(case):
             c["progress"].wait()
             return c
 
+        def respond_and_hold(c):
+            """hand the response over and let the handler run until it is inside its first `with order.trade` block"""
+            if c["done"]:
+                return {"held": c["kind"], "orders": c["orders"], "inside": False, "done": True}
+            c["hold"] = True
+            holding[c["thread"].ident] = c
+            c["progress"].clear()
+            c["release"].set()
+            c["progress"].wait()
+            return {"held": c["kind"], "orders": c["orders"], "inside": bool(c.get("inside")), "done": c["done"]}
+
         def finish_call(c, quiet=False):
             if not c["done"]:
                 c["progress"].clear()
-                c["release"].set()
+                if c.get("inside"):
+                    c["release2"].set()
+                else:
+                    c["release"].set()
                 c["progress"].wait()
                 c["thread"].join()
             res = {"kind": c["kind"], "orders": c["orders"], "before": c["before"], "calls": c["attempts"], "responded": c["answered"], "sent": c["sent"] if c["answered"] else [],
@@ -629,6 +661,7 @@ def run_live_exec(case):
                         d["ctx"]["%d/%s" % (i, k[1])] = {"trades": len(rc.trades), "live": len(rc.live_trades), "resets": resets.get(id(rc), 0)}
             return d
 
+        install_hold_hook(W["fw"])
         out = []
         for step in case["steps"]:
             res = None
@@ -687,6 +720,10 @@ def run_live_exec(case):
                         rs.append(finish_call(start_call(pkg, step[1][k % len(step[1])]))); k += 1
                     rs[-1]["tx_after"] = dump()["tx"]
                 res = {"drained": rs}
+            elif step[0] == "respond_hold":
+                free = [c for c in W["calls"] if not c.get("inside") and not c["done"]]
+                if free:
+                    res = respond_and_hold(free[step[1] % len(free)])
             elif step[0] == "respond":
                 if W["calls"]:
                     c = W["calls"].pop(step[1] % len(W["calls"]))
@@ -746,6 +783,7 @@ def run_live_exec(case):
                 for c in W["calls"]:
                     finish_call(c, quiet=True)      # the old process is gone; whatever its threads still do is invisible
                 new_framework()
+                install_hold_hook(W["fw"])
                 changed.clear(); cache.clear()
                 del sent_snapshots[:]      # a new connection cannot deliver what the old one had sent
                 cache.update(b["id"] for b in bets if not b["complete"])      # the initial image of a new subscription holds the live orders only
